@@ -288,10 +288,10 @@ func init() {
 var componentsA = map[string]string{
 	"git-sizer CLI (pflag parsing, refopts, sizes.Graph, path resolver, output, meter, parsers)": "real code, current /repo tree, in-process (engine A; language version go1.23 forced by the harness module)",
 	"go-pipe Pipeline / Function stages / Wait() error ranking":                                  "real (vendored copy of v1.0.2 with one added seam in CommandStage)",
-	"go-pipe commandStage (exec, stderr capture)":                                                 "stub for the four streaming commands (in-process peer, simulated pipe, genuine *exec.ExitError values)",
-	"git rev-list / cat-file --batch-check / cat-file --batch / for-each-ref":                     "stub (SimGit peers over the world model); real git in conformance cross-runs",
-	"git rev-parse / git config (one-shot)":                                                       "real git 2.39.5 on the materialised repository",
-	"clock":                 "testing/synctest fake clock",
-	"pipes":                 "in-memory, capacity / chunking / short reads from the plan",
-	"goroutine scheduling":  "Go runtime at GOMAXPROCS=1; peer event order decided by the plan's fake-time delays",
+	"go-pipe commandStage (exec, stderr capture)":                                                "stub for the four streaming commands (in-process peer, simulated pipe, genuine *exec.ExitError values)",
+	"git rev-list / cat-file --batch-check / cat-file --batch / for-each-ref":                    "stub (SimGit peers over the world model); real git in conformance cross-runs",
+	"git rev-parse / git config (one-shot)":                                                      "real git 2.39.5 on the materialised repository",
+	"clock":                                                                                      "testing/synctest fake clock",
+	"pipes":                                                                                      "in-memory, capacity / chunking / short reads from the plan",
+	"goroutine scheduling":                                                                       "Go runtime at GOMAXPROCS=1; peer event order decided by the plan's fake-time delays",
 }
